@@ -97,6 +97,10 @@ Print Assumptions C12_unguarded_prog_refuted.
 Example C12_env_example : z_in 59 (delims genv) = true /\ comment_guard genv = true.
 Proof. split; reflexivity. Qed.
 
+(* the translator recognised the shape of every construct it reads flags from *)
+Example C12_shapes_recognised : comment_shape_ok && arity_shape_ok = true.
+Proof. reflexivity. Qed.
+
 (* f(1;2)  *)
 Example C12_parse_example :
   prog genv (fuel_for 6) [102; 40; 49; 59; 50; 41]
